@@ -6,7 +6,8 @@ use std::sync::Arc;
 use xplore::*;
 
 pub fn check(thorough: bool, _seed: u64) -> Check {
-    let lists = Arc::new(abscissa_lists(thorough));
+    let (lists, reduced_from) = abscissa_lists(thorough);
+    let lists = Arc::new(lists);
     let n = lists.len();
     let ph = Phase {
         name: "knot-lists",
@@ -14,7 +15,7 @@ pub fn check(thorough: bool, _seed: u64) -> Check {
         split: 3,
         body: Box::new(move |unit, cx| {
             let xs = &lists[unit];
-            let (ys, _fam) = pick_ordinates(cx, xs);
+            let (ys, _fam) = pick_ordinates(cx, xs, unit >= reduced_from);
             let a = analyse(xs, &ys)?;
             cx.evals(1);
             let signs: Vec<i32> = a.secants.iter().map(|s| s.signum()).collect();
